@@ -405,6 +405,54 @@ Section Laws.
     eapply forall2b_detects; try eassumption. now apply N.eqb_neq.
   Qed.
 
+  (* k-NN: a different NUMBER of stored targets is detected whatever the common part looks like: the
+     relation starts with `self.y.len() != other.y.len()`.  In particular a model never equals the
+     model fitted on the same rows plus appended rows (or on a row-prefix), in either direction.
+     (`zipall`, the `iter().zip().all()` form of the same loop, has no such property: see
+     `zip_form_accepts_prefix` below.) *)
+  Theorem knnr_eq_detects_different_lengths a b :
+    List.length (kr_y a) <> List.length (kr_y b) -> knnr_eq O eps a b = false.
+  Proof.
+    intros H. unfold knnr_eq.
+    assert (E : same_len (kr_y a) (kr_y b) = false) by (unfold same_len; now apply Nat.eqb_neq).
+    rewrite E. cbn. now rewrite orb_true_r.
+  Qed.
+  Theorem knnc_eq_detects_different_lengths a b :
+    List.length (kc_y a) <> List.length (kc_y b) -> knnc_eq O eps a b = false.
+  Proof.
+    intros H. unfold knnc_eq.
+    assert (E : same_len (kc_y a) (kc_y b) = false) by (unfold same_len; now apply Nat.eqb_neq).
+    rewrite E. cbn. now rewrite orb_true_r.
+  Qed.
+  Theorem knnr_eq_detects_appended ys extra k1 k2 :
+    extra <> [] ->
+    knnr_eq O eps (mkKNNR ys k1) (mkKNNR (ys ++ extra) k2) = false /\
+    knnr_eq O eps (mkKNNR (ys ++ extra) k2) (mkKNNR ys k1) = false.
+  Proof.
+    intros H.
+    assert (L : List.length ys <> List.length (ys ++ extra)).
+    { rewrite app_length. destruct extra; [congruence | cbn; lia]. }
+    split; apply knnr_eq_detects_different_lengths; cbn [kr_y]; [exact L | intro E; apply L; now symmetry].
+  Qed.
+  Theorem knnc_eq_detects_appended cl1 cl2 ys extra k1 k2 :
+    extra <> [] ->
+    knnc_eq O eps (mkKNNC cl1 ys k1) (mkKNNC cl2 (ys ++ extra) k2) = false /\
+    knnc_eq O eps (mkKNNC cl2 (ys ++ extra) k2) (mkKNNC cl1 ys k1) = false.
+  Proof.
+    intros H.
+    assert (L : List.length ys <> List.length (ys ++ extra)).
+    { rewrite app_length. destruct extra; [congruence | cbn; lia]. }
+    split; apply knnc_eq_detects_different_lengths; cbn [kc_y]; [exact L | intro E; apply L; now symmetry].
+  Qed.
+  (* the same comparison written with zip: every list is "equal" to each of its extensions *)
+  Lemma zip_form_accepts_prefix {A} (f : A -> A -> bool) (l extra : list A) :
+    (forall x, In x l -> f x x = true) -> zipall f l (l ++ extra) = true /\ zipall f (l ++ extra) l = true.
+  Proof.
+    induction l as [|a l IH]; intros H; cbn.
+    - split; [reflexivity | now destruct extra].
+    - rewrite H by (now left). cbn. apply IH. intros x Hx. apply H. now right.
+  Qed.
+
   (* trees: a node whose output / split value / split score differs by eps or more, or whose split
      feature differs; the child links are never looked at *)
   Theorem rtree_eq_detects_node a b i x y :
